@@ -13,9 +13,19 @@ for m in sorted(glob.glob('/verif/seeded/%s-*/meta.json' % pid)):
     note = (json.load(open(m)).get('needs_to_manifest') or '').strip().replace("\n", " ")
     prior.append("  - " + note[:420])
 PRIOR = ""
-if prior and os.environ.get("WAVE3"):
+if prior and (os.environ.get("WAVE3") or os.environ.get("WAVE4")):
     PRIOR = "\n\nOther people have ALREADY proposed the following changes for this property; yours must be genuinely different (different mechanism, different code site or different trigger), not variations of these:\n" + "\n".join(prior) + "\n"
-NUM = "THREE" if os.environ.get("WAVE3") else "TWO"
+NUM = "THREE" if (os.environ.get("WAVE3") or os.environ.get("WAVE4")) else "TWO"
+if os.environ.get("WAVE4"):
+    PRIOR += """
+This time, favour changes whose trigger is one of the following (at least two of your three should be of these kinds):
+  (a) SCALE: it only shows on inputs that are larger than a toy example - more lines or features than some internal threshold, batch size, window or cache size (look for numeric constants and loops with counters in the code), long attribute lists, many distinct ids, large or unusual coordinates;
+  (b) LENGTH OF HISTORY: it needs a longer sequence of operations on the same object or file (four or more steps), or a specific order of operations that looks unusual but is legitimate;
+  (c) RARE VALUES: it needs a specific character, number or string that a person writing small examples would not think of (but a real file could contain);
+  (d) ENVIRONMENT: it depends on something outside the arguments - current directory, file name pattern or extension, existing neighbouring files, environment variables, locale/encoding, read-only locations - while still being a plausible edit;
+  (e) THREE-WAY INTERACTION: it needs three options / features of the library to be used together.
+"""
+
 print(f"""You are helping evaluate a verification effort for the Python library gffutils (parses GFF/GTF genomic annotation files into a sqlite3 database). You have your own scratch git worktree of the library at {wt} (a checkout of the current code). Work ONLY inside {wt}; never touch /repo or /verif, and do not read anything under /verif.
 
 Here is a semantic property the library is supposed to satisfy:
